@@ -14,6 +14,11 @@ import (
 
 var errFakeConnClosed = errors.New("fake carrier closed")
 
+// errCarrierReset is what the server reads when the proxy-to-server connection is torn without a
+// WebSocket close frame (websocketconn passes abnormal closures through; only normal closures become
+// io.EOF).
+var errCarrierReset = errors.New("websocket: close 1006 (abnormal closure): unexpected EOF")
+
 // fakeConn is the server's end of one carrier (what websocketconn.Conn is in production): a byte
 // stream from the client (chunks arrive as the proxy relays them) and a byte stream to the client.
 type fakeConn struct {
@@ -29,6 +34,7 @@ type fakeConn struct {
 	written        int
 	Out            []byte // everything written downstream, concatenated
 	NClose         int
+	cutErr         error // what a cut surfaces as on Read (nil: io.EOF); written before the cut is signalled
 }
 
 func newFakeConn(name string) *fakeConn {
@@ -45,12 +51,12 @@ func (c *fakeConn) Read(p []byte) (int, error) {
 			return 0, errFakeConnClosed
 		case chunk, ok := <-c.in:
 			if !ok {
-				return 0, io.EOF
+				return 0, c.cutError()
 			}
 			c.rbuf = chunk
 		case <-c.eofc:
 			// the connection is gone; chunks still in flight are lost with it
-			return 0, io.EOF
+			return 0, c.cutError()
 		}
 	}
 	n := copy(p, c.rbuf)
@@ -91,8 +97,19 @@ func (c *fakeConn) Close() error {
 // Feed hands upstream bytes to the carrier (client side).
 func (c *fakeConn) Feed(b []byte) { c.in <- append([]byte(nil), b...) }
 
-// Cut ends the upstream direction (the proxy-to-server TCP connection is gone).
+// Cut ends the upstream direction with a clean end of stream (the proxy closed its WebSocket).
 func (c *fakeConn) Cut() { close(c.in) }
+
+// CutAbrupt ends the upstream direction the way a torn TCP connection does: the reader gets an error
+// that is not io.EOF.
+func (c *fakeConn) CutAbrupt() { c.cutErr = errCarrierReset; close(c.in) }
+
+func (c *fakeConn) cutError() error {
+	if c.cutErr != nil {
+		return c.cutErr
+	}
+	return io.EOF
+}
 
 func (c *fakeConn) IsClosed() bool { return c.NClose > 0 }
 
@@ -110,6 +127,9 @@ func (c *fakeConn) SetWriteDeadline(t time.Time) error { return nil }
 // CutEOF ends the upstream direction without closing the chunk channel (safe against concurrent
 // TryFeed); chunks in flight may or may not be delivered before the reader sees EOF.
 func (c *fakeConn) CutEOF() { close(c.eofc) }
+
+// CutEOFAbrupt is CutEOF surfacing as a non-EOF error.
+func (c *fakeConn) CutEOFAbrupt() { c.cutErr = errCarrierReset; close(c.eofc) }
 
 // TryFeed hands upstream bytes to the carrier unless it has been cut.
 func (c *fakeConn) TryFeed(b []byte, dead <-chan struct{}) bool {
